@@ -245,13 +245,17 @@ func (r *ccRun) doOp(g int, op ccOp) {
 		var seen []ccRec
 		r.s.Range(func(k int, v int64) bool {
 			n++
-			seen = append(seen, ccRec{G: g, Kind: "get", Key: k, Val: v, Ok: true, Call: call})
+			// a visit is a read that took effect between the Range call and the moment the callback is
+			// entered (the pair handed to it was determined before that)
+			seen = append(seen, ccRec{G: g, Kind: "get", Key: k, Val: v, Ok: true, Call: call, Ret: r.stamp.Add(1)})
+			for i := 0; i < op.Pert; i++ {
+				runtime.Gosched() // a slow callback: later visits of this Range happen well after its start
+			}
+			if op.Pert >= 3 {
+				time.Sleep(20 * time.Microsecond)
+			}
 			return op.Stop == 0 || n < op.Stop
 		})
-		ret := r.stamp.Add(1)
-		for i := range seen {
-			seen[i].Ret = ret
-		}
 		r.recs[g] = append(r.recs[g], seen...)
 		r.rangeN.Add(1)
 		return
